@@ -98,7 +98,7 @@ def stage(ck, pid, thorough):
     return merged, flagged, decls, opts
 
 
-CHUNK = 150000
+CHUNK = 80000
 
 
 class Merged:
